@@ -122,55 +122,64 @@ def run(prog, rep, tier, repo):
                 lu_[1][1] == M + '::lu' and lu_[1][2] == (me,) and s_ == sysm
         (rep.ok if ok else rep.viol)('routing', key, 'solve = lu() then lu_solve(pivots, system)' if ok else 'solve is %s' % [show(r)[:100] for r in rets], site_of(f.body))
 
-    # ------------------------------------------------------------------ D3 layout
+    # ------------------------------------------------------------------ D3 layout (layout algebra, cva/layout.py)
+    from ..layout import LayoutEval, Mismatch, Unrecognised
+
+    def run_layout(f, key, sizes, base, describe):
+        ev = LayoutEval(f, sizes, base)
+        try:
+            exts = [c for c in f.calls() if c.path and short(c.path) in ('extend_from_slice', 'extend')]
+            if not exts:
+                raise Unrecognised('no solution buffer filled by extend')
+            for c in exts:
+                buf = c.args[0]
+                v = c.args[1]
+                while tag(v) == 'call' and short(v[1]) in ('deref', 'into_iter', 'iter', 'as_slice', 'to_vec', 'data', 'clone') and v[2]:
+                    v = v[2][0]
+                if tag(v) == 'field' and tag(v[1]) == 'call':
+                    v = v[1]
+                if tag(v) != 'call' or not v[2]:
+                    raise Unrecognised('appended value %s' % show(v)[:60])
+                x = ev.row_of(v[2][-1], None)
+                lay = (x[0], ('comp', 'N'))
+                if buf in ev.base and ev.base[buf] != lay:
+                    raise Mismatch('solutions are appended in two different orders')
+                ev.base[buf] = lay
+                if x[1] != ('comp', 'N'):
+                    raise Mismatch('a solve is given a row of %s (%s entries), not one right-hand side' % (x[1][0], x[1][1]))
+            want = (('comp', 'N'), ('sys', 'S'))
+            got = []
+            for rv in f.return_values():
+                if tag(rv) == 'call' and short(rv[1]) == 'new' and not rv[2]:
+                    continue          # empty result for zero right-hand sides
+                got.append(ev.lay(rv))
+            if not got:
+                raise Unrecognised('no result value')
+            for g in got:
+                if g != want:
+                    raise Mismatch('the result is laid out as %s x %s (%s x %s); it must be component x system (N x S): solution j must be column j of X' % (
+                        g[0][0], g[1][0], g[0][1], g[1][1]))
+            rep.ok('layout', key, describe)
+        except Mismatch as e:
+            rep.viol('layout', key, str(e), site_of(f.body))
+        except Unrecognised as e:
+            rep.undecided('layout', key, 'layout idiom outside the algebra: %s' % e, site_of(f.body), proof=False)
+
     f = prog.func(U + 'solve_sys')
     if f is not None:
-        ix = IdxFunc(prog, f)
         a = ('arg', 1, f.names.get(1))
         b = ('arg', 2, f.names.get(2))
-        n = None
-        for c in f.calls():
-            if c.path == U + 'row_to_col_major' and c.args[0] == b:
-                n = c.args[1]
-                bc = f.call_term(c.term, c.bb)
-        key = 'layout:solve_sys'
-        problems = []
-        if n is None:
-            problems.append('right-hand sides are not converted with row_to_col_major(b, n)')
-        else:
-            sq = ix.dims().get(a)
-            if not sq or strip_casts(sq[0]) != strip_casts(n):
-                problems.append('row count passed to row_to_col_major is %s, not the order of `a`' % show(n))
-            nsys = ix.dims().get(b, (None, None))[1]
-            rets = f.return_values()
-            okret = len(rets) == 1 and tag(rets[0]) == 'call' and rets[0][1] == U + 'col_to_row_major' and strip_casts(rets[0][2][1]) == strip_casts(n)
-            if not okret:
-                problems.append('result is not col_to_row_major(solutions, n)')
-            else:
-                sol = rets[0][2][0]
-                exts = [c for c in f.calls() if c.path and short(c.path) in ('extend_from_slice', 'extend') and c.args[0] == sol]
-                for c in exts:
-                    loops = [li for li in ix.loops if c.bb in li['blocks']]
-                    if len(loops) != 1:
-                        problems.append('solutions are not appended once per system')
-                        continue
-                    li = loops[0]
-                    r = ix.item_range(li['item'])
-                    if not (r and pconst(r[0]) == 0 and nsys is not None and peq(r[1], poly(nsys))):
-                        problems.append('system loop is not 0..nsys')
-                    v = c.args[1]
-                    chunk = [z for z in subterms(v) if tag(z) == 'index' and tag(z[2]) == 'range' and z[1] == bc]
-                    if len(chunk) != 1:
-                        problems.append('a solve does not take a column chunk of the column-major right-hand sides')
-                        continue
-                    lo, hi = chunk[0][2][1], chunk[0][2][2]
-                    i = li['item']
-                    if not (peq(poly(lo), pmul(poly(i), poly(n))) and peq(poly(hi), pmul(padd(poly(i), {(): 1}), poly(n)))):
-                        problems.append('column chunk is [%s..%s], expected [i*n..(i+1)*n]' % (show(lo)[:40], show(hi)[:40]))
-                if len(exts) < 1:
-                    problems.append('no solution is appended')
-        (rep.viol if problems else rep.ok)('layout', key, '; '.join(problems) if problems else
-                                           'B -> column-major, column i = chunk [i*n..(i+1)*n] solved and appended in order, result converted back to row-major', site_of(f.body))
+        n_t = ('call', 'std::result::Result::<T, E>::unwrap', (('call', U + 'is_square', (a,), None),), None)
+
+        def is_n(t):
+            return t == n_t
+
+        def is_s(t):
+            if tag(t) == 'call' and short(t[1]) == 'unwrap' and t[2] and tag(t[2][0]) == 'call' and t[2][0][1] == U + 'is_matrix' and t[2][0][2][0] == b and is_n(strip_casts(t[2][0][2][1])):
+                return True
+            return tag(t) == 'bin' and t[1] == 'Div' and t[2] == ('len', b) and is_n(strip_casts(t[3]))
+        run_layout(f, 'layout:solve_sys', [(is_n, 'N'), (is_s, 'S')], {b: (('comp', 'N'), ('sys', 'S'))},
+                   'B (N x S) -> rows = right-hand sides, each solved and appended in order, result converted back to N x S')
     for meth in ('cholesky_solve', 'lu_solve'):
         k = '<%s as linalg::array::matrix::Solve<%s>>::%s' % (M, M, meth)
         f = prog.func(k)
@@ -179,39 +188,10 @@ def run(prog, rep, tier, repo):
             rep.viol('layout', key, 'method disappeared')
             continue
         rep.touch(k)
-        ix = IdxFunc(prog, f)
-        me = ('arg', 1, f.names.get(1))
         sysm = f.body.arg_count
         sysm = ('arg', sysm, f.names.get(sysm))
-        problems = []
-        rets = f.return_values()
-        # Matrix::new(solutions, system.ncols, system.nrows).t()
-        ok = len(rets) == 1 and tag(rets[0]) == 'call' and rets[0][1] == M + '::t' and tag(rets[0][2][0]) == 'call' and rets[0][2][0][1] == M + '::new'
-        if not ok:
-            problems.append('result is not Matrix::new(solutions, ncols, nrows).t()')
-        else:
-            nw = rets[0][2][0]
-            sol, r, c = nw[2]
-            if not (strip_casts(r) == ('field', sysm, 2, 'usize') and strip_casts(c) == ('field', sysm, 1, 'usize')):
-                problems.append('stacked solutions are shaped (%s, %s), expected (system.ncols, system.nrows)' % (show(r), show(c)))
-            exts = [cc for cc in f.calls() if cc.path and short(cc.path) == 'extend' and cc.args[0] == sol]
-            if len(exts) != 1:
-                problems.append('solutions are not appended once per column')
-            else:
-                e = exts[0]
-                loops = [li for li in ix.loops if e.bb in li['blocks']]
-                if len(loops) != 1 or not (ix.item_range(loops[0]['item']) and peq(ix.item_range(loops[0]['item'])[1], poly(('field', sysm, 2, 'usize')))):
-                    problems.append('column loop is not 0..system.ncols')
-                else:
-                    i = loops[0]['item']
-                    v = e.args[1]
-                    cols = [z for z in subterms(v) if tag(z) == 'call' and z[1] == M + '::get_col_as_vector']
-                    if not (len(cols) == 1 and cols[0][2] == (sysm, i)):
-                        problems.append('the i-th solve does not use system.get_col_as_vector(i)')
-                    inner = [z for z in subterms(v) if tag(z) == 'call' and short(z[1]) == meth and 'Solve<%s>' % V in z[1]]
-                    if not (len(inner) == 1 and inner[0][2][0] == me):
-                        problems.append('columns are not solved with the Vector form of %s on self' % meth)
-        (rep.viol if problems else rep.ok)('layout', key, '; '.join(problems) if problems else 'column i solved with the Vector form, stacked as rows, transposed back', site_of(f.body))
+        run_layout(f, key, [(lambda t, sysm=sysm: t == ('field', sysm, 1, 'usize'), 'N'), (lambda t, sysm=sysm: t == ('field', sysm, 2, 'usize'), 'S')],
+                   {sysm: (('comp', 'N'), ('sys', 'S'))}, 'column j solved with the Vector form, stacked as rows (S x N), transposed back to N x S')
     rep.floor('layout', 3, 'solve_sys, Matrix cholesky_solve / lu_solve for Matrix')
 
     # ------------------------------------------------------------------ D4 siblings (shared engine with C11)
@@ -228,6 +208,8 @@ def run(prog, rep, tier, repo):
         oa, ob = diff(la, lb)
         if not oa and not ob and la:
             rep.ok('sibling', key, '%d abstract statements agree' % len(la))
+        elif not la or c11.idiom_signature(la) != c11.idiom_signature(lb):
+            rep.undecided('sibling', key, 'the two implementations use different loop idioms: not comparable statement by statement', site_of(fb.body), proof=False)
         else:
             rep.viol('sibling', key, 'slice-level and Matrix-level %s differ: only slice: %s | only Matrix: %s' % (name, '; '.join(oa)[:300] or '-', '; '.join(ob)[:300] or '-'), site_of(fb.body))
     rep.floor('sibling', 4, 'lu, lu_solve, forward/backward substitution')
